@@ -121,6 +121,38 @@ def ensure_facts(force=False, repo=None, cache=None, quiet=False):
         lock.close()
 
 
+def ensure_fixture_facts():
+    """Facts of fixtures/positive (calibration + must-fire examples); cached by content."""
+    cache = os.path.join(VERIF, '.cache')
+    os.makedirs(cache, exist_ok=True)
+    lock = open(os.path.join(cache, 'lock.fixture'), 'w')
+    fcntl.flock(lock, fcntl.LOCK_EX)
+    try:
+        build_driver()
+        src = os.path.join(VERIF, 'fixtures', 'positive')
+        facts_dir = os.path.join(cache, 'facts-fixture')
+        stamp_file = os.path.join(cache, 'facts-fixture.stamp')
+        h = hashlib.sha256()
+        for f in ('Cargo.toml', 'src/lib.rs'):
+            h.update(open(os.path.join(src, f), 'rb').read())
+        h.update(open(DRIVER, 'rb').read())
+        want = h.hexdigest()
+        have = open(stamp_file).read().strip() if os.path.exists(stamp_file) else ''
+        if have != want or not glob.glob(os.path.join(facts_dir, 'posfix.*.json')):
+            if os.path.exists(stamp_file):
+                os.unlink(stamp_file)
+            rc, out = run_driver(src, facts_dir, os.path.join(cache, 'target-fixture'), packages=['posfix'])
+            if rc != 0 or not glob.glob(os.path.join(facts_dir, 'posfix.*.json')):
+                raise RuntimeError('fixture extraction failed\n' + out[-2000:])
+            with open(stamp_file, 'w') as fh:
+                fh.write(want)
+        return facts_dir
+    finally:
+        fcntl.flock(lock, fcntl.LOCK_UN)
+        lock.close()
+
+
 if __name__ == '__main__':
     d, info = ensure_facts(force='--force' in sys.argv)
     print(d, json.dumps(info))
+    print(ensure_fixture_facts())
